@@ -28,7 +28,14 @@ Proof.
 Qed.
 Lemma reject_iff mn mx p : opp_reject mn mx p = true <-> (mx < p \/ p < mn).
 Proof.
-  unfold opp_reject. destruct (Rlt_dec mx p), (Rlt_dec p mn); cbn; split; intros H; try reflexivity; try discriminate; auto; destruct H; contradiction.
+  (* whatever the syntactic form of the acceptance test (`max < p || p < min`, or the NaN-safe `!(min <= p && p <= max)`) *)
+  unfold opp_reject.
+  repeat match goal with
+         | |- context [Rlt_dec ?a ?b] => destruct (Rlt_dec a b)
+         | |- context [Rle_dec ?a ?b] => destruct (Rle_dec a b)
+         end; cbn;
+  repeat match goal with |- context [bool_dec ?a ?b] => destruct (bool_dec a b) end;
+  split; intros H; try reflexivity; try discriminate; try congruence; try lra; exfalso; lra.
 Qed.
 Lemma perfect_iff z : opp_perfect z = true <-> z = 0.
 Proof. unfold opp_perfect. destruct (Req_EM_T z 0); split; intros; try assumption; try reflexivity; try discriminate; contradiction. Qed.
